@@ -32,11 +32,14 @@ CODE_VERSION = json.load(open(os.path.join(SPEC, "code_version.json")))
 CONFIGS = {
     "quick": [dict(universe="u1", MaxMsgs=3, MaxRestarts=0, MaxFaults=0, MaxCrashes=0)],
     "thorough": [dict(universe="u1", MaxMsgs=3, MaxRestarts=1, MaxFaults=1, MaxCrashes=0),
-                 dict(universe="deep", MaxMsgs=3, MaxRestarts=1, MaxFaults=0, MaxCrashes=0),
+                 dict(universe="deep", MaxMsgs=3, MaxRestarts=1, MaxFaults=1, MaxCrashes=0, FaultKinds=ROLLBACK_FAULTS),
                  dict(universe="retarget", MaxMsgs=3, MaxRestarts=1, MaxFaults=0, MaxCrashes=0),
                  dict(universe="quick", MaxMsgs=4, MaxRestarts=1, MaxFaults=0, MaxCrashes=0),
                  dict(universe="stale", MaxMsgs=3, MaxRestarts=1, MaxFaults=0, MaxCrashes=0),
-                 dict(universe="cpalt", MaxMsgs=3, MaxPeerEv=3, MaxRestarts=1, MaxFaults=0, MaxCrashes=0)],
+                 dict(universe="cpalt", MaxMsgs=3, MaxPeerEv=3, MaxRestarts=1, MaxFaults=1, MaxCrashes=0,
+                      FaultKinds=ROLLBACK_FAULTS),
+                 # either peer may connect as a non-candidate (no SFNodeNetwork), with either advertised height
+                 dict(universe="u1l", MaxMsgs=3, MaxRestarts=0, MaxFaults=0, MaxCrashes=0)],
     # slice of C04 (run_slice_c04): SyncPeerIsConnected over u1 / over u1 with the full non-candidate dimension
     "c04": [dict(universe="u1", MaxMsgs=3, MaxRestarts=0, MaxFaults=0, MaxCrashes=0)],
     "c04thorough": [dict(universe="u1l", MaxMsgs=3, MaxRestarts=1, MaxFaults=0, MaxCrashes=0)],
